@@ -325,7 +325,11 @@ func c12Op(cache *cdi.Cache, kind string, r *rand.Rand, dirs []string, w int, mk
 			}
 			fallthrough
 		case 0:
-			cache.Configure(cdi.WithSpecDirs(nd...))
+			// (the directory slice is the caller's and is reused right away: a cache that
+			// kept it instead of a copy reads it under its lock while we write)
+			o, reuse := withDirs(nd)
+			cache.Configure(o)
+			reuse()
 		case 1:
 			cache.Configure(cdi.WithAutoRefresh(chance(r, 50)))
 		default:
